@@ -82,3 +82,32 @@ Theorem map_outside_side_independent pre post p a b :
   (match post with [] => True | (s, _, _) :: _ => p < s end) ->
   map {| ranges := pre ++ post; inverted := false |} p a = map {| ranges := pre ++ post; inverted := false |} p b.
 Proof. intros H1 H2. rewrite !rule_outside; auto. Qed.
+
+(* ------------------------------------------------------------------ *)
+(* A mirror-free Mapping over well-formed maps inherits all three bounds: it is the composition of its maps. *)
+Lemma fold_maps_nonneg ms : forall p a, Forall wf_map ms -> 0 <= p -> 0 <= fold_maps ms p a.
+Proof.
+  induction ms as [|m ms IH]; intros p a Hwf Hp; simpl; auto.
+  inversion Hwf as [|? ? Hm Hms]; subst. apply IH; auto. apply map_nonneg; auto.
+Qed.
+
+Theorem fold_maps_mono ms : forall p q a,
+  Forall wf_map ms -> 0 <= p -> p <= q -> fold_maps ms p a <= fold_maps ms q a.
+Proof.
+  induction ms as [|m ms IH]; intros p q a Hwf Hp Hpq; simpl; auto.
+  inversion Hwf as [|? ? Hm Hms]; subst. apply IH; auto.
+  - apply map_nonneg; auto.
+  - apply map_mono; auto.
+Qed.
+
+Theorem fold_maps_assoc_mono ms : forall p a b,
+  Forall wf_map ms -> 0 <= p -> a <= b -> fold_maps ms p a <= fold_maps ms p b.
+Proof.
+  induction ms as [|m ms IH]; intros p a b Hwf Hp Hab; simpl; [lia|].
+  inversion Hwf as [|? ? Hm Hms]; subst.
+  transitivity (fold_maps ms (map m p a) b).
+  - apply IH; auto. apply map_nonneg; auto.
+  - apply fold_maps_mono; auto.
+    + apply map_nonneg; auto.
+    + apply map_assoc_mono; auto.
+Qed.
